@@ -83,7 +83,9 @@ StageEv ==
                IN  Note(IF keys = <<>> THEN Ev_.rows = work ELSE OrderOK(work, Ev_.rows, keys),
                         "order", [in |-> work])
           ELSE LET c == Computed(s)
-               IN  Note(~IsErr(c) /\ c.e = Ev_.rows, s, c)
+                   \* the rows of a join come in no particular order
+                   asBag == s = "from" /\ q.k = "select" /\ q.from.k = "join"
+               IN  Note(~IsErr(c) /\ (IF asBag THEN BagEq(c.e, Ev_.rows) ELSE c.e = Ev_.rows), s, c)
        /\ st' = s /\ work' = Ev_.rows
     /\ UNCHANGED <<q, doc, data>>
 
